@@ -187,3 +187,9 @@ package parser
 // nothing the parser has built for a part of the text (a statement, a branch, a name, an option) is dropped on the way
 // up. `root : program` is exempt: program's own actions hand the result to the lexer, root has no value.
 //@ grammarvalues C12 except root/1
+
+// C11 / C16: the shape the contracts assume of the parser's trees - a choice type has at least one option (mode inference
+// indexes the first) - is a fact about the grammar: the option list cannot be empty.
+//@ grammarnonempty C11 session_type_options_init
+//@ grammarnonempty C16 session_type_options_init
+//@ grammar C16 parser/parser.y parser/parser.y.go goyacc -p grits -o parser/parser.y.go parser/parser.y
